@@ -139,6 +139,19 @@ theorem never_climbs (p : Bytes) : ∃ d, descend 0 (splitSlash (canonicalize p)
   rw [h1]
   simpa [splitSlash, splitSlash.go, descend] using h2
 
+/-- **Idempotent.** Canonicalising a canonical path changes nothing: the result is a fixed point, so a server that
+canonicalises twice (REALPATH, then an operation on the returned name) sees the same name. -/
+theorem idempotent (p : Bytes) : canonicalize (canonicalize p) = canonicalize p := by
+  obtain ⟨root, comps, h, hroot, hpr⟩ := canonical_form p
+  have habs : isabs (canonicalize p) = true := by
+    simp [isabs, absolute p]
+  have hstep : canonicalize (canonicalize p) = normpath (canonicalize p) := by
+    generalize canonicalize p = q at habs
+    unfold canonicalize
+    simp [habs]
+  rw [hstep, h]
+  exact normpath_normal root comps hroot hpr
+
 /-! ## non-vacuity / sanity: the classic traversal attempts -/
 
 example : canonicalize [46, 46, 47, 46, 46, 47, 101, 116, 99] = [47, 101, 116, 99] := by decide   -- "../../etc" ↦ "/etc"
